@@ -190,7 +190,7 @@ EXTRA8 = {
 for k, v in EXTRA8.items():
     CHECKS[k]['text'] += v
 EXTRA9 = {
- 'C03': " One configuration gives the per-packet limit before the size option (window 1024, jumps beyond 512 missing numbers).",
+ 'C03': " One configuration gives the per-packet limit before the size option (window 1024, jumps beyond 512 missing numbers). One scripted job unbinds a stream with an open gap, binds another NACK stream and lets two ticks pass before its first packet.",
  'C04': " One sequence number in seven is a padding-only packet.",
  'C08': " In interceptor mode every fourth number arrives as a padding-only packet.",
  'C10': " The packetdump variants of the catalog send RTP and RTCP dumps to one writer; for classes raised by the race detector two failing replays out of five of one recorded case suffice.",
